@@ -27,7 +27,7 @@ type codecCase struct {
 }
 
 var codecSeed int64
-var buildStyles = []string{"newavp", "novbit", "literal", "byname"}
+var buildStyles = []string{"newavp", "novbit", "literal", "byname", "late2"}
 
 type codecLine struct {
 	Style string  `json:"style"`
@@ -349,6 +349,11 @@ func runLenbook(id int, c *lenbookCase, dp *dict.Parser) lenbookLine {
 				g := diam.NewAVP(9018, 0x40, 0, &diam.GroupedAVP{})
 				g.Data.(*diam.GroupedAVP).AddAVP(diam.NewAVP(9010, 0x40, 0, datatype.OctetString(pay)))
 				m.AddAVP(g)
+			case "AddNestedLate":
+				inner := &diam.GroupedAVP{}
+				outer := diam.NewAVP(9018, 0x40, 0, &diam.GroupedAVP{AVP: []*diam.AVP{diam.NewAVP(9050, 0x40, 0, inner)}})
+				inner.AddAVP(diam.NewAVP(9010, 0x40, 0, datatype.OctetString(pay)))
+				m.AddAVP(outer)
 			case "Marshal":
 				if err := m.Marshal(&lbStruct{A: datatype.OctetString(pay), B: datatype.UTF8String([]byte{byte(k + 1), byte(k + 1)})}); err != nil {
 					l.Err = err.Error()
@@ -368,8 +373,11 @@ func runLenbook(id int, c *lenbookCase, dp *dict.Parser) lenbookLine {
 			}
 			for _, av := range m.AVP {
 				s := av.Data.Serialize()
-				if g, ok := av.Data.(*diam.GroupedAVP); ok && len(g.AVP) == 1 {
+				for g, ok := av.Data.(*diam.GroupedAVP); ok && len(g.AVP) == 1; g, ok = g.AVP[0].Data.(*diam.GroupedAVP) {
 					s = g.AVP[0].Data.Serialize()
+					if _, more := g.AVP[0].Data.(*diam.GroupedAVP); !more {
+						break
+					}
 				}
 				switch {
 				case av.Code == 268:
